@@ -309,11 +309,15 @@ def fold(prop, tier, seed, mod, cases, results, problems, wall, replay_mode=Fals
         "verdict": "violated" if violations else ("inconclusive" if inconcl else "held"),
     }
     if not replay_mode:
-        os.makedirs(os.path.join(ROOT, "evidence"), exist_ok=True)
-        tmp = os.path.join(ROOT, "evidence", f".{prop}.json.tmp")
+        # evidence/ describes runs against /repo only; a run against a scratch copy (VERIF_REPO, used when a seeded
+        # change is evaluated) leaves its record under the git-ignored replays/ directory instead
+        scratch = os.path.realpath(os.environ.get("VERIF_REPO", "/repo")) != os.path.realpath("/repo")
+        edir = os.path.join(ROOT, "replays", "evidence_scratch") if scratch else os.path.join(ROOT, "evidence")
+        os.makedirs(edir, exist_ok=True)
+        tmp = os.path.join(edir, f".{prop}.json.tmp")
         with open(tmp, "w") as f:
             json.dump(evidence, f, indent=1, default=_jd)
-        os.replace(tmp, os.path.join(ROOT, "evidence", f"{prop}.json"))
+        os.replace(tmp, os.path.join(edir, f"{prop}.json"))
 
     # ---- report ---------------------------------------------------------------------------
     print(
